@@ -486,8 +486,10 @@ where
         self: &'a mut Pin<&mut Self>,
         cx: &mut Context<'_>,
     ) -> Poll<Option<Result<(), ChannelError<C::Error>>>> {
-        while self.poll_ready(cx)?.is_pending() {
+        if self.poll_ready(cx)?.is_pending() {
             ready!(self.poll_flush(cx)?);
+            // Flushing may have made room. If it did not, yield: poll_ready registered a wakeup.
+            ready!(self.poll_ready(cx)?);
         }
         Poll::Ready(Some(Ok(())))
     }
